@@ -46,6 +46,12 @@ def confirm(pid, v):
         txt = open(toml).read()
         if "[dev-dependencies]" in txt and 'bincode = "1.3.3"' not in txt.split("[dev-dependencies]")[1]:
             open(toml, "a").write('\nbincode = "1.3.3"\n')
+    if "serde_json" in open(os.path.join(src, "demo.rs")).read():
+        toml = os.path.join(wt, crate, "Cargo.toml")
+        if "serde_json" not in open(toml).read():
+            if feat and "[dev-dependencies]" in open(toml).read() and 'bincode = "1.3.3"' not in open(toml).read().split("[dev-dependencies]")[1]:
+                open(toml, "a").write('\nbincode = "1.3.3"\n')
+            open(toml, "a").write('\nserde_json = "1"\n')
     demo = "cargo test -p %s %s--test %s --offline" % (crate, "--features bincode " if feat else "", tname)
     log["demo_command"] = demo
     rc1, out1 = sh(demo + " 2>&1 | tail -25", wt)
